@@ -22,10 +22,20 @@ page k ≥ 2 returned page k-1's result (finding F23: `stream.res` kept the prev
 the adapter now clears `stream.res` before it submits the follow-up search, the model mirrors it
 (`pageStart`), and the finish clause holds for EVERY chain (`C10_finish_any_chain`) and the paged
 chains refine the cursor for all call sequences (`C10_refines_paged`).  Paging itself: Props/C16.lean.
+
+Bridge to the connection model (Model/Conn.lean), last section: the scripts are no longer abstract.
+`ConnStream.scriptOf D s c` is the script the channel `c` of a connection state `s` produces;
+`C10_recv_is_next_inner`: one `.recv` step of the connection model = one `next_inner` on that script;
+`C10_conn_stream`: for every history of the connection model, the stream (direct / EntriesOnly) fed
+with what the connection put into the search's channel presents exactly the frames the server sent
+under the search's ID: items in order, then the result (finish() returns it), for all call sequences.
+Soundness (nothing foreign, order) holds outright (`C10_conn_stream_sound`); completeness of the
+channel is the explicit hypothesis `ConnStream.ChanComplete` (to be discharged by `C01_complete`).
 -/
 import Ldap3V.Lemmas.StreamC10
 import Ldap3V.Lemmas.StreamPagedFinish
 import Ldap3V.Lemmas.GenPure
+import Ldap3V.Lemmas.ConnStreamTrace
 namespace Ldap3V.Stream
 open Spec
 
@@ -267,5 +277,223 @@ theorem C10_item_kinds_source (id : Nat) :
     Gen.resultEntry_is_ref id = some (id == 19) ∧ Gen.resultEntry_is_intermediate id = some (id == 25) :=
   ⟨gen_is_ref id, gen_is_intermediate id⟩
 
+
+/-! ### bridge to the connection model: the scripts are what the driver puts into the search's channel
+
+`D : ConnStream.Content` decodes the opaque frame tokens of Model/Conn.lean (referral URIs, controls,
+result code, referral list); every theorem holds for ALL decodings.  A frame becomes the stream item
+with `kind` by its protocolOp number (4 entry, 19 reference, 25 intermediate) and `tok` = the frame's
+token (`ConnStream.itemOf`); a SearchResultDone frame becomes the result `ConnStream.resOf`. -/
+
+/-- Simulation.  Connection state `s`, a stream whose receiver holds the script of channel `c`.
+One `.recv c dl` step of the connection model (= one wait of `next_inner` on the channel) observes
+what `nextInner` of the stream model returns, and the receiver then holds the script of the new
+connection state: an entry / reference / intermediate frame ⇒ `Ok(Some(item))`; the
+SearchResultDone ⇒ `Ok(None)`, `res` set, receiver dropped; closed and drained ⇒ `Err(EndOfStream)`,
+receiver dropped; nothing there yet ⇒ the caller waits.  Holds in EVERY state (no invariant needed). -/
+theorem C10_recv_is_next_inner (D : ConnStream.Content) (s s' : Conn.St) (c : Nat) (dl : Option Nat) (ob : Conn.Obs)
+    (hs : Conn.step s (.recv c dl) = some (s', ob)) (m : Stream) (hrx : m.rx = some (ConnStream.scriptOf D s c)) :
+    (∀ f, ob = .item (some (.entry f)) →
+      nextInner m = ({ m with rx := some (ConnStream.scriptOf D s' c) }, .ok (some (ConnStream.itemOf D f))) ∧
+      ConnStream.scriptOf D s c = .item (ConnStream.itemOf D f) :: ConnStream.scriptOf D s' c) ∧
+    (∀ f, ob = .item (some (.done f)) →
+      nextInner m = ({ m with res := some (ConnStream.resOf D f), rx := none }, .ok none) ∧
+      ConnStream.scriptOf D s c = .done (ConnStream.resOf D f) :: ConnStream.scriptOf D s' c) ∧
+    (ob = .closed → nextInner m = ({ m with rx := none }, .err .endOfStream) ∧ s' = s ∧
+      ConnStream.scriptOf D s c = [.closed]) ∧
+    (ob = .pending → nextInner m = (m, .pending) ∧ s' = s ∧ ConnStream.scriptOf D s c = []) := by
+  obtain ⟨h1, h2, h3, h4⟩ := ConnStream.nextInner_sim D hs m hrx
+  refine ⟨fun f hf => ⟨h1 f hf, ?_⟩, fun f hf => ⟨h2 f hf, ?_⟩, fun hf => ⟨h3 hf, ?_⟩, fun hf => ⟨h4 hf, ?_⟩⟩
+  · rcases ConnStream.recv_sim D hs with ⟨it, hob, hscr⟩ | ⟨hob, _⟩ | ⟨hob, _⟩ | ⟨hob, _⟩
+    · rw [hf] at hob; cases hob; exact hscr
+    · rw [hf] at hob; cases hob
+    · rw [hf] at hob; cases hob
+    · rcases hob with hob | hob <;> (rw [hf] at hob; cases hob)
+  · rcases ConnStream.recv_sim D hs with ⟨it, hob, hscr⟩ | ⟨hob, _⟩ | ⟨hob, _⟩ | ⟨hob, _⟩
+    · rw [hf] at hob; cases hob; exact hscr
+    · rw [hf] at hob; cases hob
+    · rw [hf] at hob; cases hob
+    · rcases hob with hob | hob <;> (rw [hf] at hob; cases hob)
+  · rcases ConnStream.recv_sim D hs with ⟨it, hob, _⟩ | ⟨_, h5, h6⟩ | ⟨hob, _⟩ | ⟨hob, _⟩
+    · rw [hf] at hob; cases hob
+    · exact ⟨h5, h6⟩
+    · rw [hf] at hob; cases hob
+    · rcases hob with hob | hob <;> (rw [hf] at hob; cases hob)
+  · rcases ConnStream.recv_sim D hs with ⟨it, hob, _⟩ | ⟨hob, _⟩ | ⟨_, h5, h6⟩ | ⟨hob, _⟩
+    · rw [hf] at hob; cases hob
+    · rw [hf] at hob; cases hob
+    · exact ⟨h5, h6⟩
+    · rcases hob with hob | hob <;> (rw [hf] at hob; cases hob)
+
+/-- the content decoding and the history of the examples below: one search (ID 1) submitted, written
+and acknowledged; the server sends an entry, a reference and the final result under ID 1 and an
+unrelated frame under ID 9; the driver reads all four -/
+def bridgeD : ConnStream.Content :=
+  ⟨fun t => if t = 71 then some [[0x6c]] else none, fun t => if t = 72 then [⟨false, none, 9⟩] else [], fun _ => 32, fun _ => [[0x61]]⟩
+
+def bridgeEvs : List Conn.Ev :=
+  [.alloc .search, .enqueue 0 none, .drvOp true, .poll 0,
+   .srvSend ⟨1, 4, 70, false⟩, .srvSend ⟨9, 4, 99, false⟩, .srvSend ⟨1, 19, 71, false⟩, .srvSend ⟨1, 5, 72, true⟩,
+   .drvResp, .drvResp, .drvResp, .drvResp]
+
+example : ConnStream.scriptOf bridgeD (Conn.run (Conn.init 100) bridgeEvs) 0 =
+      [.item ⟨.entry, 70, none, []⟩, .item ⟨.ref, 71, some [[0x6c]], []⟩, .done ⟨32, [[0x61]], [⟨false, none, 9⟩], .server 72⟩, .closed] ∧
+    (Conn.step (Conn.run (Conn.init 100) bridgeEvs) (.recv 0 none)).map (·.2) = some (.item (some (.entry ⟨1, 4, 70, false⟩))) ∧
+    ConnStream.scriptOf bridgeD (Conn.run (Conn.init 100) (bridgeEvs ++ [.recv 0 none])) 0 =
+      [.item ⟨.ref, 71, some [[0x6c]], []⟩, .done ⟨32, [[0x61]], [⟨false, none, 9⟩], .server 72⟩, .closed] := by decide
+
+/-- Soundness of the channel, for EVERY history of the connection model and every search channel
+(no hypothesis): the script the stream is fed with consists of frames the server sent under the
+search's own message ID and the driver read, in sending order (a subsequence), each handed on as
+an item iff its protocolOp is 4 / 19 / 25 and as the final result iff it is a well-formed
+SearchResultDone (5); then `closed` iff no sender is left. -/
+theorem C10_conn_stream_sound (D : ConnStream.Content) (N : Nat) (evs : List Conn.Ev) (c : Nat) (ch : Conn.Chan) (o : Conn.Op)
+    (hc : (Conn.run (Conn.init N) evs).chans[c]? = some ch) (ho : (Conn.run (Conn.init N) evs).ops[ch.opIdx]? = some o) :
+    (ch.items.map Conn.itemFrame).Sublist (ConnStream.sentFor (Conn.run (Conn.init N) evs) o.id) ∧
+    (∀ f ∈ ch.items.map Conn.itemFrame, ConnStream.isItemOp f.op = true ∨ (f.op = 5 ∧ f.good = true)) ∧
+    ConnStream.fullScript D (Conn.run (Conn.init N) evs) c =
+      (ch.items.map Conn.itemFrame).map (ConnStream.recvOfFrame D) ++ ConnStream.closedTail (Conn.run (Conn.init N) evs) c ∧
+    (ch.taken ≤ ch.items.length ∧
+      ConnStream.scriptOf D (Conn.run (Conn.init N) evs) c = (ConnStream.fullScript D (Conn.run (Conn.init N) evs) c).drop ch.taken) := by
+  have hwf := ConnStream.ChanWF.run N evs
+  obtain ⟨h1, h2, h3⟩ := ConnStream.fullScript_sound D (Conn.RouteInv.run N evs) hwf hc ho
+  exact ⟨h1, h2, h3, (hwf.get hc).1, ConnStream.scriptOf_drop hc (hwf.get hc).1⟩
+
+/-- channel and operation record of the search at the end of `bridgeEvs` -/
+def bridgeCh : Conn.Chan :=
+  { opIdx := 0, items := [.entry ⟨1, 4, 70, false⟩, .entry ⟨1, 19, 71, false⟩, .done ⟨1, 5, 72, true⟩] }
+def bridgeOp : Conn.Op :=
+  { id := 1, kind := .search, mail := .ack, res := some .ack, chan := some 0, phase := .taken }
+
+example : (Conn.run (Conn.init 100) bridgeEvs).chans[0]? = some bridgeCh ∧
+    (Conn.run (Conn.init 100) bridgeEvs).ops[bridgeCh.opIdx]? = some bridgeOp := by decide
+
+/-- The bridge.  Any history `evs` of the connection model (any interleaving of callers, driver,
+server and faults), a search with channel `c` and operation record `o`, in a state where the driver
+has ended or the search's SearchResultDone has been routed; `sent` = the frames the server sent under
+the search's message ID (as far as the driver read them; counted from the `p0`-th frame of the
+connection on — `p0` = what the server had sent when the search was registered, 0 = everything), in order.
+HYPOTHESIS `ChanComplete` (completeness of routing; being proved separately as `C01_complete`): the
+channel was given every one of those frames up to the one that ends the search.
+Then a stream — direct, or behind EntriesOnly — whose inner receive is fed by that channel
+(`fullScript`: what the channel has held from its first item on, then `closed` if it has no sender)
+answers EVERY call sequence exactly as the specification cursor on the view of `sent`
+(`ConnStream.sentView`): `next()` yields the server's entries / references / intermediate messages
+item for item, in order, then `Ok(None)` and `finish()` returns the server's result; if the frames
+end without a result, `Err(EndOfStream)` after the last item and `finish()` returns rc 88.
+Behind EntriesOnly: the entries only, the reference URIs merged into the result (`eoView`). -/
+theorem C10_conn_stream (D : ConnStream.Content) (N : Nat) (evs : List Conn.Ev) (c : Nat) (ch : Conn.Chan) (o : Conn.Op)
+    (p0 : Nat) (entriesOnly : Bool) (h : Handle) (q : Query) (calls : List Call)
+    (hc : (Conn.run (Conn.init N) evs).chans[c]? = some ch)
+    (_ho : (Conn.run (Conn.init N) evs).ops[ch.opIdx]? = some o)
+    (hcomp : ConnStream.ChanComplete (Conn.run (Conn.init N) evs) ch o p0)
+    (hend : (Conn.run (Conn.init N) evs).drv ≠ .running ∨ ∃ f, Conn.Item.done f ∈ ch.items) :
+    run (init (streamChain entriesOnly) h [.script (ConnStream.fullScript D (Conn.run (Conn.init N) evs) c)]) (.start q :: calls) =
+      Cursor.run (if q.filterOk then .ok else .err .filterParsing)
+        (Cursor.ofView
+          (if entriesOnly then eoView (ConnStream.sentView D false (ConnStream.sentFrom (Conn.run (Conn.init N) evs) p0 o.id))
+           else ConnStream.sentView D false (ConnStream.sentFrom (Conn.run (Conn.init N) evs) p0 o.id)))
+        (.start q :: calls) := by
+  have hwf := ConnStream.ChanWF.run N evs
+  rw [← ConnStream.sentView_ended D hwf hc hcomp hend]
+  exact ConnStream.conn_stream_refines D hc (hwf.get hc) hcomp entriesOnly h q calls
+
+/-- `C10_conn_stream` spelled out for a completed search: `sent = its ++ fd :: rest`, `its` items,
+`fd` the well-formed SearchResultDone.  Direct stream: `its.length` calls of `next()` return the
+frames of `its` one by one (kind by protocolOp, same token), the next returns `Ok(None)`, `finish()`
+returns `fd`'s result.  `Ldap::search` (EntriesOnly, drain, finish): exactly the entries among `its`
+in order, and `fd`'s result with the URIs of the references appended to its referral list. -/
+theorem C10_conn_stream_items (D : ConnStream.Content) (N : Nat) (evs : List Conn.Ev) (c : Nat) (ch : Conn.Chan) (o : Conn.Op)
+    (p0 : Nat) (h : Handle) (q : Query) (hq : q.filterOk = true)
+    (hc : (Conn.run (Conn.init N) evs).chans[c]? = some ch)
+    (_ho : (Conn.run (Conn.init N) evs).ops[ch.opIdx]? = some o)
+    (hcomp : ConnStream.ChanComplete (Conn.run (Conn.init N) evs) ch o p0)
+    (its : List Conn.Frame) (fd : Conn.Frame) (rest : List Conn.Frame)
+    (hsent : ConnStream.sentFrom (Conn.run (Conn.init N) evs) p0 o.id = its ++ fd :: rest)
+    (hi : ∀ f ∈ its, ConnStream.isItemOp f.op = true) (h5 : fd.op = 5) (hg : fd.good = true) :
+    run (init [] h [.script (ConnStream.fullScript D (Conn.run (Conn.init N) evs) c)])
+        (.start q :: (List.replicate (its.length + 1) .next ++ [.finish])) =
+      .started .ok :: (its.map (fun f => Output.item (.ok (some (ConnStream.itemOf D f)))) ++
+        [.item (.ok none), .result (ConnStream.resOf D fd)]) ∧
+    ((∀ f ∈ its, f.op = 19 → D.uris f.tok ≠ none) →
+      search h [.script (ConnStream.fullScript D (Conn.run (Conn.init N) evs) c)] q =
+        .ok ((its.map (ConnStream.itemOf D)).filter fun i => i.kind == .entry)
+          { ConnStream.resOf D fd with refs := (ConnStream.resOf D fd).refs ++ refUris (its.map (ConnStream.itemOf D)) }) := by
+  have hwf := ConnStream.ChanWF.run N evs
+  have hshape := ConnStream.fullScript_shape D hc (hwf.get hc) hcomp hsent hi h5 hg
+  rw [hshape]
+  refine ⟨?_, fun hu => ?_⟩
+  · have := ConnStream.run_direct_items_done h q hq (its.map (ConnStream.itemOf D)) (ConnStream.resOf D fd)
+      (ConnStream.closedTail (Conn.run (Conn.init N) evs) c) []
+    simp only [List.length_map] at this
+    rw [this]
+    simp [Function.comp_def]
+  · apply C10_search h q hq
+    intro i hi' hk
+    obtain ⟨f, hf, rfl⟩ := List.mem_map.mp hi'
+    have h19 : f.op = 19 := by
+      simp only [ConnStream.itemOf, ConnStream.kindOfOp] at hk
+      split at hk
+      · assumption
+      · split at hk <;> cases hk
+    exact hu f hf h19
+
+/-- What the caller HAS received and what it WILL receive make up the channel, for every history:
+the items handed to the `.recv c _` events of the history (`ConnStream.recvTrace`, read off the
+observations step by step), followed by the script still to come, are the full script.  So the
+stream of `C10_conn_stream`, fed with `fullScript`, is the stream the caller has been reading all
+along, whatever the interleaving of its `next()` calls with the driver. -/
+theorem C10_conn_recv_trace (D : ConnStream.Content) (N : Nat) (evs : List Conn.Ev) (c : Nat) :
+    (ConnStream.recvTrace c (Conn.init N) evs).map (ConnStream.recvOf D) ++
+        ConnStream.scriptOf D (Conn.run (Conn.init N) evs) c =
+      ConnStream.fullScript D (Conn.run (Conn.init N) evs) c :=
+  ConnStream.trace_script D N evs c
+
+-- the caller polls between the driver's steps: one item received early, one late, the result still queued
+example : ConnStream.recvTrace 0 (Conn.init 100)
+      [.alloc .search, .enqueue 0 none, .drvOp true, .poll 0, .srvSend ⟨1, 4, 70, false⟩, .recv 0 none, .drvResp,
+       .recv 0 none, .srvSend ⟨1, 19, 71, false⟩, .srvSend ⟨1, 5, 72, true⟩, .drvResp, .drvResp, .recv 0 none] =
+    [.entry ⟨1, 4, 70, false⟩, .entry ⟨1, 19, 71, false⟩] := by decide
+
+-- non-vacuity of `C10_conn_stream` / `C10_conn_stream_items`: the hypotheses hold for the concrete
+-- history (the channel is complete, the search is complete), and the outputs are the three frames
+example : (Conn.run (Conn.init 100) bridgeEvs).chans[0]? = some bridgeCh ∧
+    (Conn.run (Conn.init 100) bridgeEvs).ops[bridgeCh.opIdx]? = some bridgeOp ∧
+    ConnStream.ChanComplete (Conn.run (Conn.init 100) bridgeEvs) bridgeCh bridgeOp 0 ∧
+    Conn.Item.done ⟨1, 5, 72, true⟩ ∈ bridgeCh.items ∧
+    ConnStream.sentFrom (Conn.run (Conn.init 100) bridgeEvs) 0 bridgeOp.id =
+      [⟨1, 4, 70, false⟩, ⟨1, 19, 71, false⟩] ++ ⟨1, 5, 72, true⟩ :: [] := by decide
+
+example : run (init [] {} [.script (ConnStream.fullScript bridgeD (Conn.run (Conn.init 100) bridgeEvs) 0)])
+      [.start ⟨1, true⟩, .next, .next, .next, .next, .finish] =
+    [.started .ok, .item (.ok (some ⟨.entry, 70, none, []⟩)), .item (.ok (some ⟨.ref, 71, some [[0x6c]], []⟩)),
+     .item (.ok none), .item (.ok none), .result ⟨32, [[0x61]], [⟨false, none, 9⟩], .server 72⟩] ∧
+    search {} [.script (ConnStream.fullScript bridgeD (Conn.run (Conn.init 100) bridgeEvs) 0)] ⟨1, true⟩ =
+      .ok [⟨.entry, 70, none, []⟩] ⟨32, [[0x61], [0x6c]], [⟨false, none, 9⟩], .server 72⟩ := by decide +kernel
+
+-- why `p0`: a frame under ID 1 read BEFORE the search is registered is dropped (it belongs to nobody);
+-- the channel is complete from frame 1 on, not from frame 0 on
+example :
+    let evs : List Conn.Ev := [.srvSend ⟨1, 4, 60, false⟩, .drvResp, .alloc .search, .enqueue 0 none, .drvOp true, .poll 0,
+      .srvSend ⟨1, 4, 70, false⟩, .srvSend ⟨1, 5, 72, true⟩, .drvResp, .drvResp]
+    (Conn.run (Conn.init 100) evs).chans[0]? = some { opIdx := 0, items := [.entry ⟨1, 4, 70, false⟩, .done ⟨1, 5, 72, true⟩] } ∧
+    ConnStream.ChanComplete (Conn.run (Conn.init 100) evs)
+      { opIdx := 0, items := [.entry ⟨1, 4, 70, false⟩, .done ⟨1, 5, 72, true⟩] } bridgeOp 1 ∧
+    ¬ ConnStream.ChanComplete (Conn.run (Conn.init 100) evs)
+      { opIdx := 0, items := [.entry ⟨1, 4, 70, false⟩, .done ⟨1, 5, 72, true⟩] } bridgeOp 0 := by decide
+
+-- the other branch of `hend`: a malformed SearchResultDone under the search's ID ends the driver (F4);
+-- the channel is complete, closed, and the stream yields the entry, then Err(EndOfStream); finish(): rc 88
+example :
+    let evs : List Conn.Ev := [.alloc .search, .enqueue 0 none, .drvOp true, .poll 0,
+      .srvSend ⟨1, 4, 70, false⟩, .srvSend ⟨1, 5, 72, false⟩, .srvSend ⟨1, 4, 73, false⟩, .drvResp, .drvResp, .drvResp]
+    (Conn.run (Conn.init 100) evs).drv = .endedErr ∧
+    (Conn.run (Conn.init 100) evs).chans[0]? = some { opIdx := 0, items := [.entry ⟨1, 4, 70, false⟩] } ∧
+    ConnStream.ChanComplete (Conn.run (Conn.init 100) evs) { opIdx := 0, items := [.entry ⟨1, 4, 70, false⟩] }
+      { bridgeOp with mail := .ack } 0 ∧
+    run (init [] {} [.script (ConnStream.fullScript bridgeD (Conn.run (Conn.init 100) evs) 0)])
+        [.start ⟨1, true⟩, .next, .next, .next, .finish] =
+      [.started .ok, .item (.ok (some ⟨.entry, 70, none, []⟩)), .item (.err .endOfStream), .item (.ok none), .result cancelled] := by
+  decide +kernel
 
 end Ldap3V.Stream
